@@ -72,8 +72,25 @@ def q1(prog):
     inst, findings = [], []
     # (i) mutable members / const_cast of this in protocol classes
     n_cls = 0
+    # the classes of a compiled query: the protocol classes and, transitively, every repository class one of them holds as a data member
+    # (by value, through a smart pointer, in a container): an overload dispatch table inside an op is as shared as the op itself
+    import re as _re
+    graph = set(q for q in prog.records if any(prog.derives(q, b) for b in PROTOCOL_BASES))
+    work = list(graph)
+    names = sorted(prog.records, key=len, reverse=True)
+    while work:
+        q = work.pop()
+        for fl in prog.records[q].get("fields", []):
+            t = str(fl.get("t", ""))
+            for cand in names:
+                if cand in graph or len(cand) < 4 or cand not in t:
+                    continue
+                if _re.search(r"(?<![\w:])" + _re.escape(cand) + r"(?![\w])", t) and prog.rel(prog.records[cand].get("file", "")).startswith("libzwerg/") \
+                   and not t.rstrip().endswith("&") and not (t.rstrip().endswith("*") and "const" in t):
+                    graph.add(cand)
+                    work.append(cand)
     for q, r in sorted(prog.records.items()):
-        if not any(prog.derives(q, b) for b in PROTOCOL_BASES):
+        if q not in graph:
             continue
         n_cls += 1
         for fl in r["fields"]:
